@@ -42,6 +42,24 @@ def swap(t, a, b):
     return N.subst(N.subst(N.subst(t, {a: tmp}), {b: a}), {tmp: b})
 
 
+def byte_tables(ctx, rule, files):
+    """Module-level lookup tables indexed or keyed by a byte value are built over all 256 byte values: a comprehension at module level whose
+    only generator is range(k) with a literal k has k == 256 (range(0xFF) silently leaves byte 0xFF out)."""
+    M = ctx.model
+    n = 0
+    for rel, assigns in M.module_assigns.items():
+        if not rel.endswith(tuple(files)):
+            continue
+        for name, v in sorted(assigns.items()):
+            if not isinstance(v, (ast.ListComp, ast.DictComp, ast.SetComp, ast.GeneratorExp)) or len(v.generators) != 1:
+                continue
+            it = v.generators[0].iter
+            if isinstance(it, ast.Call) and isinstance(it.func, ast.Name) and it.func.id == "range" and len(it.args) == 1 and isinstance(it.args[0], ast.Constant):
+                n += 1
+                ctx.ob(rule, name, it.args[0].value == 256, "%s is built over range(%s): a table over byte values covers 0..255" % (name, it.args[0].value), key="%s covers all bytes" % name, loc="%s:%d" % (rel, v.lineno))
+    return n
+
+
 def run(ctx):
     M = ctx.model
     # ---------------------------------------------------------------- R1
@@ -222,11 +240,21 @@ def run(ctx):
                 names = [e.id for e in (node.args[1].elts if isinstance(node.args[1], ast.Tuple) else [node.args[1]]) if isinstance(e, ast.Name)]
                 ctx.ob("C20.R5", fi0, set(names) <= searchable, "%s._search descends only into classes that define _search (%s); anything else would raise AttributeError, which the blanket handler swallows together with the entry" % (cls, names), key="%s recursion guard" % cls, node=node)
                 ctx.ob("C20.R5", fi0, set(names) >= searchable, "%s._search descends into every searchable class %s (a guard naming only %s never searches the others, e.g. a list nested in a list)" % (cls, sorted(searchable), names), key="%s recursion guard complete" % cls, node=node)
+    # 'no match' is one identity-tested marker everywhere: what _search returns when nothing matched (None today) is exactly what every
+    # caller's test compares the recursive result with -- by identity, never by truthiness (a falsy matched value is still a match)
+    nomatch = {}
+    for cls in ("Container", "ListContainer"):
+        fi, paths = own_method_paths(ctx, cls, "_search")
+        sa_ = ("param", "search_all")
+        ends = {p.retval for p in paths if p.returns and N.mk_not(sa_) in p.guards() and not any(e.kind == "RETURN" and e.loops for e in p.events)}
+        nomatch[cls] = ends
+    marker = set().union(*nomatch.values())
     for cls in ("Container", "ListContainer"):
         fi, paths = own_method_paths(ctx, cls, "_search")
         tests = [g for p in paths for g in p.guards() if any(x[0] == "call" and x[1][0] == "attr" and x[1][2] == "_search" for x in N.walk(g))]
-        ok = bool(tests) and all(g[0] == "cmp" and g[1] in ("is", "is not") and g[3] == N.NONE for g in tests)
-        ctx.ob("C20.R5", fi, ok, "%s._search treats only None as 'no match' (a falsy matched value is still a match)" % cls, key="%s search none" % cls)
+        ok = bool(tests) and len(marker) == 1 and all(g[0] == "cmp" and g[1] in ("is", "is not") and g[3] in marker for g in tests)
+        ctx.ob("C20.R5", fi, ok, "%s._search tests the recursive result by identity against the one 'no match' marker that _search returns (%s)" % (cls, sorted(N.show(m) for m in marker)), key="%s search none" % cls)
     unused_parameters(ctx, "C20.R5", lambda f: f.relpath.endswith(("lib/containers.py", "lib/hex.py")))
+    byte_tables(ctx, "C20.R4", ("lib/hex.py",))
     ctx.floor("C20.R5", 3 + 20)
     ctx.control("C20.R1", swap(("cmp", "in", ("param", "k"), SELF), SELF, other) == ("cmp", "in", ("param", "k"), other))
